@@ -195,6 +195,7 @@ def job_cache_isolation(P, taps):
         vs = [lift(w) for w in fb2.window]
         o1 = fb.channelize(x[:n], cache=True)
         oy = fb.channelize(y, cache=False)            # uncached call in the middle of a stream
+        fb.estimate_channelized_stds(factor=2 * taps, seed=1)      # so is the unit-noise estimate (injection onto RAW asks for it mid-stream)
         p1 = fb2.channelize(z[:n], cache=True)        # another object interleaved
         o2 = fb.channelize(x[n:], cache=True)
         p2 = fb2.channelize(z[n:], cache=True)
@@ -421,6 +422,7 @@ def replay_pfb(p):
         fb2 = pf.PolyphaseFilterbank(num_taps=taps, num_branches=P)
         o1 = fb.channelize(x[:n], cache=True)
         oy = fb.channelize(y, cache=False)
+        fb.estimate_channelized_stds(factor=4 * taps, seed=1)
         p1 = fb2.channelize(z[:n], cache=True)
         o2 = fb.channelize(x[n:], cache=True)
         p2 = fb2.channelize(z[n:], cache=True)
